@@ -185,6 +185,13 @@ def parseOp (n : Names) (fs : List String) : Option Op :=
                        redirectSecure := parseBool secure, state := state, nonce := nonce,
                        scopes := decList scopes, aud := decList aud, grantScopes := decList gs, grantAud := decList ga,
                        subject := sub, challenge := challenge, method := method })
+  | ["redeemAs", client, cred, code, redirect, verifier, scopes, aud, bodyClient] =>
+    -- the authenticated client is `client` (HTTP Basic); the body's client_id only ends up in the stored form
+    some (.redeem { clientId := client, credOk := parseBool cred, code := parsePresented n code,
+                    redirect := redirect, verifier := verifier, scopes := decList scopes, aud := decList aud,
+                    form := tokenForm "authorization_code" bodyClient
+                      [("code", code), ("redirect_uri", redirect), ("code_verifier", verifier),
+                       ("scope", " ".intercalate (decList scopes)), ("audience", " ".intercalate (decList aud))] })
   | ["redeem", client, cred, code, redirect, verifier, scopes, aud] =>
     some (.redeem { clientId := client, credOk := parseBool cred, code := parsePresented n code,
                     redirect := redirect, verifier := verifier, scopes := decList scopes, aud := decList aud,
